@@ -268,6 +268,14 @@ class Gen:
             if rng.random() < 0.08:
                 p['type'] = 'untyped'
             own.append(p)
+        if base is not None and rng.random() < 0.25:
+            # recursive hierarchy: a derived class holds objects of one of its
+            # ancestors (trees, linked lists); wrapped in a container or
+            # Optional so that values stay finite
+            anc = ['cls', rng.choice(sorted(self.forbidden))]
+            own.append({'name': '%s_rec' % pfx, 'type': rng.choice([
+                ['list', anc], ['opt', anc], ['dict', 'str', anc],
+                ['seq', anc]])})
         # defaults go on a suffix of the parameter list
         ndef = rng.choice([0, 0, 1, 2, 3])
         params = [p for p in c['params'] if 'default' not in p] + own
